@@ -29,7 +29,8 @@ EXPLANATION = (
     "is control-dependent on an output switch (SIM_OUTPUT.*, show/markdown flags, log levels); R3.6 identifiers never order "
     "behaviour: no sorted()/min()/max()/sort() over a mapping keyed by uuid4 (recognised from its `[x.uuid] = ...` stores) or "
     "over its keys()/items(), and no sort key that reads .uuid; R3.7 = C04's R4.2 (an output switch guards logging statements "
-    "only) applied here; R3.1 also inventories sources handed over uncalled (default_factory=np.random.default_rng). R3.8 the numeric settings this property depends on are never tested by truthiness (`x or default`, `if x:`) - 0 is a legal value for them. "
+    "only) and R4.1 (process-wide state: who may write it, re-established by every build) applied here; R3.5 also follows draws hidden "
+    "behind properties evaluated under a log switch; R3.1 also inventories sources handed over uncalled (default_factory=np.random.default_rng). R3.8 the numeric settings this property depends on are never tested by truthiness (`x or default`, `if x:`) - 0 is a legal value for them. "
     "NOT decided: equality "
     "of trajectories, float reproducibility, behaviour of third-party libraries."
 )
@@ -415,6 +416,36 @@ def r3_5(ctx: Ctx, sites) -> None:
         ctx.record("R3.5", f"{path}::{fn.short}::draw {unparse(call.func)}", f"{path}:{call.lineno}", not bad,
                    f"guards: {guards or 'none'}" if not bad else f"random draw happens only under output switch {bad}: logging settings change the RNG stream")
     ctx.floor("R3.5", "seeded draws", n, 7)
+    # a draw can also hide behind a (cached) property: `self.start_node` evaluated only inside a log message that is only built when
+    # a log switch is on.  Functions that draw (directly, or through their own methods/properties one level down):
+    drawing = {id(fn.node) for fn, path, call, k in sites if k in ("seeded", "generator-draw") and fn is not None}
+    draw_props: Dict[Tuple[str, str], FuncInfo] = {}
+    for f in ix.functions:
+        if f.cls is not None and f.is_property and not isinstance(f.node, ast.Lambda):
+            direct = id(f.node) in drawing
+            via = any(isinstance(c.func, ast.Attribute) and unparse(c.func.value) == "self" and (lambda h: h is not None and id(h.node) in drawing)(
+                ix.find_method(f.cls, c.func.attr)) for c in calls_in(f.node))
+            if direct or via:
+                draw_props[(f.cls.qualname, f.name)] = f
+    n_p = 0
+    for f in ix.functions:
+        if isinstance(f.node, ast.Lambda) or f.cls is None:
+            continue
+        for node in ast.walk(f.node):
+            if not (isinstance(node, ast.If) and any(w in unparse(node.test) for w in ("SIM_OUTPUT", "log_level", "save_", "write_"))):
+                continue
+            for b in node.body + node.orelse:
+                for x in ast.walk(b):
+                    if isinstance(x, ast.Attribute) and isinstance(x.value, ast.Name) and x.value.id == "self":
+                        for k_ in ix.mro(f.cls):
+                            pf = draw_props.get((k_.qualname, x.attr))
+                            if pf is not None:
+                                n_p += 1
+                                ctx.fail("R3.5", ctx.key(f, f"self.{x.attr} (draws random numbers) is not evaluated under an output switch"), f.loc(x),
+                                         f"`self.{x.attr}` is a property that draws from the seeded generator ({pf.short}); here it is evaluated only when "
+                                         f"`{unparse(node.test)[:60]}` holds, so switching logging on or off moves the draw and shifts every later random number")
+                                break
+    ctx.count("R3.5:drawing properties", len(draw_props))
 
 
 def _uuid_keyed_attrs(ix) -> Dict[str, str]:
@@ -483,5 +514,14 @@ def check(ctx: Ctx) -> None:
     from . import c04
     with ctx.borrowed({"R4.2": "R3.7"}):
         c04.r4_2(ctx)
+    # of C04's R4.1 only the clauses that bear on "any process": a process-wide setting taken from the scenario is re-established by
+    # every build (else the trajectory depends on what the process built before), and the global generators are seeded only by
+    # set_random_seed.  *That* such state exists is C04's concern (instances interfering), not C03's.
+    from ..report import Ctx as _Ctx
+    tmp = _Ctx(ctx.prop, ctx.tier, ctx.ix)
+    c04.r4_1(tmp)
+    for i_ in tmp.instances:
+        if "is re-established by every build" in i_.key or "::seeds " in i_.key or "memoises" in i_.detail or "keeps no object across episodes" in i_.key:
+            ctx.record("R3.7", i_.key, i_.where, i_.ok, i_.detail, i_.witness)
     from .common import falsy_numeric
     falsy_numeric(ctx, "R3.8", r"seed", "random seeds")
